@@ -9,6 +9,8 @@ import (
 	"bytes"
 	"crypto"
 	"crypto/ecdsa"
+	"crypto/ed25519"
+	"crypto/rsa"
 	"crypto/elliptic"
 	"crypto/rand"
 	"crypto/sha256"
@@ -75,8 +77,57 @@ func validVP() string {
 "proof":{"type":"JsonWebSignature2020","created":"2024-01-01T00:00:00Z","expires":"2034-01-01T00:00:00Z","verificationMethod":"did:web:holder.example.com#key-1","proofPurpose":"authentication","challenge":"n1","domain":"https://verifier.example.com","jws":"eyJhbGciOiJFUzI1NiJ9..AAAA"}}`
 }
 
+// useKey does what the node does with a key it resolved for a remote party: verify a JWT / JWS that names the key, with every
+// algorithm of the key's family (crypto.ParseJWT / ParseJWS; the signature is garbage: the result must be an error, never a panic)
+func useKey(key crypto.PublicKey) {
+	var algs []string
+	switch key.(type) {
+	case ed25519.PublicKey, *ed25519.PublicKey:
+		algs = []string{"EdDSA"}
+	case *ecdsa.PublicKey, ecdsa.PublicKey:
+		algs = []string{"ES256", "ES384", "ES512"}
+	case *rsa.PublicKey, rsa.PublicKey:
+		algs = []string{"PS256", "RS256"}
+	default:
+		algs = []string{"EdDSA", "ES256", "PS256"}
+	}
+	b64 := base64.RawURLEncoding
+	for _, alg := range algs {
+		tok := b64.EncodeToString([]byte(`{"alg":"`+alg+`","typ":"JWT","kid":"k"}`)) + "." + b64.EncodeToString([]byte(`{"iss":"x","exp":4102444800}`)) + "." + b64.EncodeToString(make([]byte, 64))
+		kf := func(string) (crypto.PublicKey, error) { return key, nil }
+		nutsCrypto.ParseJWT(tok, kf)
+		nutsCrypto.ParseJWS([]byte(tok), kf)
+	}
+}
+
 // all resolvers' documents go through the code that the rest of the node runs on a resolved document
 func afterResolve(doc *did.Document, id did.DID) {
+	// (go-did's PublicKey() itself panics on a JsonWebKey2020 method without publicKeyJwk — the open third-party finding, observed through
+	// ResolveKey/ResolveKeyByID below; the direct calls here only fetch keys to use them)
+	pub := func(f func() (crypto.PublicKey, error)) (k crypto.PublicKey, err error) {
+		defer func() {
+			if r := recover(); r != nil {
+				err = errors.New("library panic")
+			}
+		}()
+		return f()
+	}
+	for _, vm := range doc.VerificationMethod {
+		if vm != nil && (vm.PublicKeyJwk != nil || vm.PublicKeyMultibase != "" || vm.PublicKeyBase58 != "") {
+			if k, err := pub(vm.PublicKey); err == nil {
+				useKey(k)
+			}
+		}
+	}
+	for _, rels := range []did.VerificationRelationships{doc.AssertionMethod, doc.Authentication} {
+		for _, rel := range rels {
+			if rel.VerificationMethod != nil && (rel.PublicKeyJwk != nil || rel.PublicKeyMultibase != "" || rel.PublicKeyBase58 != "") {
+				if k, err := pub(rel.PublicKey); err == nil {
+					useKey(k)
+				}
+			}
+		}
+	}
 	kr := resolver.DIDKeyResolver{Resolver: staticResolver{doc}}
 	for rt := resolver.RelationType(0); rt < 5; rt++ {
 		kr.ResolveKey(id, nil, rt)
@@ -529,7 +580,7 @@ func TestVerifC19(t *testing.T) {
 	}
 
 	// ---- did:web: transport-level variants, then systematic + random mutations of the document
-	if web(webIn(200, "application/json", []byte(validWebDoc))) != "ok" {
+	if res := c19Guard(func() string { return web(webIn(200, "application/json", []byte(validWebDoc))) }); res != "ok" {
 		t.Fatal("valid did:web document is not accepted")
 	}
 	for _, ct := range []string{"application/json", "application/did+json", "application/did+ld+json; charset=utf-8", "text/html", "", "-", ";;;", "application/json; charset", strings.Repeat("a", 5000)} {
@@ -552,7 +603,7 @@ func TestVerifC19(t *testing.T) {
 		return "did:key:z" + base58.EncodeAlphabet(append(buf, body...), base58.BTCAlphabet)
 	}
 	valid := "did:key:z6MkhaXgBZDvotDkL5257faiztiGiC2QtKLGpbnnEGta2doK"
-	if key(valid) != "ok" {
+	if res := c19Guard(func() string { return key(valid) }); res != "ok" {
 		t.Fatal("valid did:key is not accepted")
 	}
 	codes := []uint64{0xeb, 0xec, 0xed, 0xe7, 0x1200, 0x1201, 0x1202, 0x1205, 0x00, 0x01, 0xffffffffffffffff, 0x1203}
@@ -596,7 +647,7 @@ func TestVerifC19(t *testing.T) {
 		`{"kty":"oct","k":"AyM1SysPpbyDfgZld3umj1qzKObwVMkoqQ-EstJQLr_T-1qS0gZH75aKtMN3Yj0iPS4hcgUuTwjAzZr1Z9CAow"}`,
 		`{"kty":"EC","crv":"P-256","x":"VovYU-43esqZaDLPBhbV44G6nvSYXHv0_pXFkLL5wWw","y":"kD-ev_48d7JSh-Ig2Rt0qDf_7OrGSPNbMbHxXsfgmVo","d":"870MB6gfuTJ4HtUnUvYMyJpr5eUZNP4Bk43bVdj3eAE"}`}
 	enc := func(b []byte) string { return "did:jwk:" + base64.RawURLEncoding.EncodeToString(b) }
-	if jwkR(enc([]byte(sg.jwk))) != "ok" {
+	if res := c19Guard(func() string { return jwkR(enc([]byte(sg.jwk))) }); res != "ok" {
 		t.Fatal("valid did:jwk is not accepted")
 	}
 	for _, j := range jwks {
@@ -604,6 +655,24 @@ func TestVerifC19(t *testing.T) {
 		for i := 0; i < n/4; i++ {
 			b, kind := m.mutate([]byte(j))
 			run("didjwk.Resolve", enc(b), "rand:"+kind)
+		}
+	}
+	// keys of the wrong length per key type (the JWK parser does not check OKP lengths), resolved and then USED
+	for _, nbytes := range []int{0, 1, 31, 32, 33, 64, 255} {
+		x := base64.RawURLEncoding.EncodeToString(bytes.Repeat([]byte{7}, nbytes))
+		run("didjwk.Resolve", enc([]byte(`{"kty":"OKP","crv":"Ed25519","x":"`+x+`"}`)), "okp-length")
+		run("didjwk.Resolve", enc([]byte(`{"kty":"OKP","crv":"X25519","x":"`+x+`"}`)), "okp-length")
+		run("didjwk.Resolve", enc([]byte(`{"kty":"OKP","crv":"Ed448","x":"`+x+`"}`)), "okp-length")
+		// the same keys in a did:web document: as JWK and as multibase Ed25519VerificationKey2020
+		mb := "z" + base58.EncodeAlphabet(append([]byte{0xed, 0x01}, bytes.Repeat([]byte{7}, nbytes)...), base58.BTCAlphabet)
+		mbRaw := "z" + base58.EncodeAlphabet(bytes.Repeat([]byte{7}, nbytes), base58.BTCAlphabet)
+		for _, vmJSON := range []string{
+			`{"id":"did:web:example.com#key-1","type":"JsonWebKey2020","controller":"did:web:example.com","publicKeyJwk":{"kty":"OKP","crv":"Ed25519","x":"` + x + `"}}`,
+			`{"id":"did:web:example.com#key-1","type":"Ed25519VerificationKey2020","controller":"did:web:example.com","publicKeyMultibase":"` + mb + `"}`,
+			`{"id":"did:web:example.com#key-1","type":"Ed25519VerificationKey2020","controller":"did:web:example.com","publicKeyMultibase":"` + mbRaw + `"}`,
+			`{"id":"did:web:example.com#key-1","type":"Ed25519VerificationKey2018","controller":"did:web:example.com","publicKeyBase58":"` + mbRaw[1:] + `"}`} {
+			doc := `{"@context":["https://www.w3.org/ns/did/v1"],"id":"did:web:example.com","verificationMethod":[` + vmJSON + `],"assertionMethod":["#key-1"],"authentication":["#key-1"]}`
+			run("didweb.Resolve", webIn(200, "application/json", []byte(doc)), "key-length")
 		}
 	}
 	for _, s := range []string{"did:jwk:", "did:jwk:!!!", "did:jwk:e30", "did:jwk:bnVsbA", "did:jwk:W10", "did:jwk:" + base64.StdEncoding.EncodeToString([]byte(sg.jwk)), enc([]byte(sg.jwk)) + "#0", enc([]byte(sg.jwk)) + "==", "did:jwk:" + strings.Repeat("A", 100000)} {
